@@ -22,9 +22,13 @@ from histlib import Site, run_cmd, observe_file
 
 # ------------------------------------------------------------------ cases
 class Case:
-    def __init__(self, idx, spec, aio, sep, sel, perms):
+    def __init__(self, idx, spec, aio, sep, sel, perms, skipped=()):
         self.idx, self.spec, self.aio, self.sep, self.sel, self.perms = idx, spec, aio, sep, sel, perms
+        self.skipped = list(skipped)       # in the scope of the listing run, skipped by it, refused by -type=T
         self.obs = {}
+
+    def single_types(self):
+        return self.sel + self.skipped
 
     def describe(self):
         return {"subcommand": self.spec.sub, "flags": self.spec.flags, "all_in_one": self.aio.argv(),
@@ -58,8 +62,10 @@ def make_case(rng, idx, sub):
                 f = rng.choice(cands)
                 aio, sep = spec.cmd_file(f), spec.cmd_file(f, sep=True)
                 sel = generating(spec, spec.eligible(f))
+                skipped = spec.skipped(f)
         if mode == "star":
             sel = generating(spec, spec.eligible())
+            skipped = spec.skipped()
             if len(sel) < 2:
                 continue
             aio, sep = spec.cmd_star(), spec.cmd_star(sep=True)
@@ -78,7 +84,7 @@ def make_case(rng, idx, sub):
                 seen.add(tuple(p))
                 perms.append(spec.cmd_types(p))
         perms.append(spec.cmd_types(list(reversed(sel)))) if tuple(reversed(sel)) not in seen else None
-        return Case(idx, spec, aio, sep, sel, perms)
+        return Case(idx, spec, aio, sep, sel, perms, skipped)
     raise lib.CheckBroken("could not generate a %s package with two generating types" % sub)
 
 
@@ -150,7 +156,7 @@ def execute_case(run, shoot, case):
     obs["sep"] = [one(case.sep, fresh())]
     site = fresh()
     obs["singles"] = []
-    for t in case.sel:
+    for t in case.single_types():
         r = one(spec.cmd_types([t]), site)
         # the files are overwritten by later invocations only under another name: keep a copy of what this one wrote
         keep = root / ("keep%02d" % len(obs["singles"]))
@@ -161,7 +167,7 @@ def execute_case(run, shoot, case):
             np.append(str(keep / Path(p).name))
         r["paths"] = np
         obs["singles"].append(r)
-    obs["fresh"] = [one(spec.cmd_types([t]), fresh()) for t in case.sel]
+    obs["fresh"] = [one(spec.cmd_types([t]), fresh()) for t in case.single_types()]
     obs["perms"] = [one(c, fresh()) for c in case.perms]
     case.obs = obs
     return case
@@ -186,8 +192,8 @@ def coq_case(case):
             "k_singles := %s; k_fresh := %s; k_perms := %s |}"
             % (spec.coq(), histgen.cs(histgen.MODROOT + "/" + spec.destname), case.aio.coq(), histlib.coq_orun(o["aio"][0]),
                case.sep.coq(), histlib.coq_orun(o["sep"][0]),
-               pairs([spec.cmd_types([t]) for t in case.sel], o["singles"]),
-               pairs([spec.cmd_types([t]) for t in case.sel], o["fresh"]),
+               pairs([spec.cmd_types([t]) for t in case.single_types()], o["singles"]),
+               pairs([spec.cmd_types([t]) for t in case.single_types()], o["fresh"]),
                pairs(case.perms, o["perms"])))
 
 
@@ -330,7 +336,7 @@ def main(run):
     run.log("shoot runs done:", sum(len(rs) for c in cases for rs in c.obs.values()))
     attach_sigs(cases, astsig)
     rendered = [coq_case(c) for c in cases]
-    mism = histlib.coq_shards(run, "c08", rendered, "mismatches_c08", "c08case", shard=12)
+    mism, exempt = histlib.coq_shards(run, "c08", rendered, "mismatches_c08", "c08case", shard=8, count_fn="exempt_c08")
     run.log("coq done, mismatches:", mism)
     for idx, v in mism[:5]:
         c = cases[idx]
@@ -383,6 +389,10 @@ def main(run):
         "programs": len(cases),
         "shoot_invocations": nruns,
         "features": feats,
+        "cases_exempt_from_fresh_copy_conjunct": sum(1 for x in exempt if x % 2 == 1),
+        "cases_exempt_from_permutation_conjunct": sum(1 for x in exempt if x >= 2),
+        "refused_one_at_a_time_runs_of_types_the_listing_run_skips": sum(1 for c in cases for r in c.obs["singles"] if r["rc"] != 0),
+        "cases_with_a_silently_skipped_type": sum(1 for c in cases if c.skipped),
         "findings_measured": outcome,
         "samples": [{"case": c.describe(), "sources": c.spec.files()} for c in (cases[0], cases[len(cases) // 2], cases[-1])],
         "trusted_base": lib.TRUSTED_BASE_COMMON + TRUSTED,
@@ -412,10 +422,14 @@ ASSUMPTIONS = [
     "are compared too, outside the input class of K_embed_order",
     "the header line quotes the command line and therefore differs between -type=A,B and -type=B,A by construction: the "
     "permutation sentence is checked byte for byte from the second line on, the header against the command line given",
-    "K_embed_order (open): new -getset where a selected type embeds another selected struct is excluded from the "
-    "fresh-copy and permutation comparisons (the model reproduces the order dependence and is compared on it)",
+    "K_embed_order (open): new -getset: the fresh-copy comparison is exempt when an embedded selected struct is processed before "
+    "its embedder, the permutation comparison when a listed type embeds a listed struct (the model reproduces the order dependence "
+    "and is compared on it); the numbers of exempt cases are in the coverage",
     "K_merge_stray_comment (open): for rest the all-in-one file carries one extra free-floating /*noop*/ per client "
-    "before func init(); the model reproduces it; declarations, doc comments and imports are still compared exactly",
+    "before func init(); the model reproduces it; only those are tolerated in excess (their number must equal the number of init "
+    "declarations); declarations, doc comments and imports are compared exactly",
+    "refused runs are judged: the listing run may be refused only if some -type=T run is; a -type=T run refused although the listing "
+    "run succeeds (a type the listing run skips silently) must contribute nothing to the all-in-one file",
 ]
 
 
